@@ -249,9 +249,7 @@ func checkC20(c *Ctx) {
 				{[]string{"mapscripts M {", "MAP_SCRIPT_ON_RESUME: Elsewhere", "MAP_SCRIPT_ON_FRAME_TABLE [", "VAR_T, 0: Other", "VAR_T, 1 {"}, []string{"}", "]", "}"}, "M_MAP_SCRIPT_ON_FRAME_TABLE_1"},
 			}
 			for hi, h := range hosts {
-				if c.Quick() && (hi+rep)%3 != 0 && hi != 0 {
-					continue
-				}
+
 				host := append(append(append([]string{}, h.pre...), body...), h.post...)
 				host = append(host, "text UserText {", "    \"u\"", "}")
 				base := Compile(strings.Join(host, "\n")+"\n", Opts{Optimize: rep%2 == 0})
@@ -266,10 +264,11 @@ func checkC20(c *Ctx) {
 				cands := append(append([]string{}, gen...), h.name+"_99", "Fine", h.name+"_Text_7")
 				np := len(h.pre)
 				for v, name := range cands {
-					for _, at := range []int{np + 1, np + 3, np + 6, np + 9} {
-						if (v+at+rep)%3 != 0 && c.Quick() {
-							continue
-						}
+					ats := []int{np + 1, np + 3, np + 6, np + 9}
+					if c.Quick() {
+						ats = []int{ats[r.Intn(len(ats))]} // one random position per candidate and repetition
+					}
+					for _, at := range ats {
 						lines := append([]string{}, host[:at]...)
 						lines = append(lines, "    "+name+":")
 						lines = append(lines, host[at:]...)
